@@ -80,6 +80,70 @@ def direct_roundtrip(j):
     return None
 
 
+def _decoded_equals(data, j, opts):
+    r = ASN1Reader(data + b"\x30\x03")
+    try:
+        back = M.unpack_ldap_message(r, opts)
+    except BaseException as e:  # noqa: BLE001
+        return f"decoding raised {type(e).__name__}"
+    if strip_raw(C.msg_to_json(back)) != strip_raw(j):
+        return "decode(encode(m)) differs from m"
+    if r.get_remaining_data() != b"\x30\x03":
+        return "decoder did not consume exactly the message's bytes"
+    return None
+
+
+def argument_kinds(j, kind):
+    """the same round trip with the octet-string fields handed over as bytearray / one shared bytearray / memoryview objects (all legal
+    for the writer): the message given to pack is the message that comes back, pack does not change its argument, and packing twice
+    gives the same bytes"""
+    opts = M.PackingOptions()
+    want = C.msg_from_json(j).pack(opts)
+    with C.octet_kind(kind):
+        m = C.msg_from_json(j)
+    try:
+        data = bytes(m.pack(opts))
+        after = C.msg_to_json(m)
+        data2 = bytes(m.pack(opts))
+    except BaseException as e:  # noqa: BLE001
+        return {"key": None, "what": f"packing a message whose octet-string fields are {kind} objects raised {type(e).__name__}: {e}"[:300], "msg": j}
+    if after != j:
+        return {"key": None, "what": f"packing changed the message it was given (octet-string fields are {kind} objects)", "msg": j, "after_pack": after,
+                "octets": kind}
+    if data != want or data2 != want:
+        return {"key": None, "what": f"a message whose octet-string fields are {kind} objects does not encode like the same message with bytes fields "
+                "(or differently the second time)", "msg": j, "hex": data.hex(), "second": data2.hex(), "bytes_fields": want.hex(), "octets": kind}
+    w = _decoded_equals(data, j, opts)
+    if w:
+        return {"key": None, "what": w + f" (octet-string fields are {kind} objects)", "msg": j, "hex": data.hex(), "octets": kind}
+    return None
+
+
+def reused_object(j, rng):
+    """ONE message object packed, edited in place through its list fields (what a caller may do with its own lists), packed again: the bytes
+    are those of its current value (no derived data is kept from the first use) and decode back to it"""
+    import mutate
+
+    opts = M.PackingOptions()
+    m = C.msg_from_json(j)
+    try:
+        m.pack(opts)
+        if not mutate.edit_lists(m, rng):
+            return None
+        j2 = C.msg_to_json(m)
+        data = bytes(m.pack(opts))
+        want = bytes(C.msg_from_json(j2).pack(opts))
+    except BaseException as e:  # noqa: BLE001
+        return {"key": None, "what": f"packing a message object a second time after editing its lists raised {type(e).__name__}", "msg": j}
+    if data != want:
+        return {"key": None, "what": "a message object that was packed, edited in place through its list fields and packed again does not encode its "
+                "current value (derived data of the first use is kept)", "first_value": j, "msg": j2, "hex": data.hex(), "fresh_object": want.hex()}
+    w = _decoded_equals(data, j2, opts)
+    if w:
+        return {"key": None, "what": w + " (object packed before, then edited in place)", "first_value": j, "msg": j2, "hex": data.hex()}
+    return None
+
+
 def long_lived_options(ctx, hist):
     """the same round trip through ONE options object that lives as long as a session does: messages are decoded before the custom control,
     filter and credential types are added to its choice lists, and messages using those types afterwards"""
@@ -168,6 +232,19 @@ def run(ctx):
         v = direct_roundtrip(j)
         if v:
             violations.append(v)
+    kinds = ["bytearray", "shared", "memoryview"]
+    for i, j in enumerate(msgs[: ctx.scale(1200, 30000)]):
+        kind = kinds[i % 3]
+        hist["octet-fields-as:" + kind] += 1
+        v = argument_kinds(j, kind)
+        if v:
+            violations.append(v)
+        v = reused_object(j, ctx.rng)
+        hist["reused-object"] += 1
+        if v:
+            violations.append(v)
+        if len(violations) > 20:
+            break
     violations += long_lived_options(ctx, hist)
     sample_n = ctx.scale(3000, 30000)
     sub = msgs[:sample_n]
@@ -189,7 +266,8 @@ def run(ctx):
         "rule": "messages generated from the library's own dataclasses: 9 kinds, ids/ints from the C07 grid, texts empty/ASCII/multi-byte/127-300 "
                 "octets, None vs empty for every optional, 0-3 controls of the 4 library kinds, filters to depth 6 with fan-out 0-8; distinct = "
                 "distinct (kind, control kinds, filter shape); each is packed, unpacked with trailing bytes, compared field by field and re-packed; "
-                "a sample is replayed on the Lean model (enc and dec)",
+                "a sample is replayed on the Lean model (enc and dec); the first messages are also packed with bytearray / shared bytearray / memoryview "
+                "octet fields (argument unchanged, same bytes twice) and as ONE object packed, edited in place through its lists and packed again",
         "samples": samples,
         "histogram": dict(sorted(hist.items())),
         "requests": len(reqs),
